@@ -39,7 +39,24 @@ fixed_key!(c15_f_i32, i32, 4);
 fixed_key!(c15_f_i64, i64, 8);
 fixed_key!(c15_f_i128, i128, 16);
 fixed_key!(c15_f_char, char, 3);
-fixed_key!(c15_f_bool, bool, 1);
+
+// bool: Kani mis-handles `<` / `cmp` on symbolic bools (probed: spurious failures), so the value order is stated
+// through u8 (false = 0 < true = 1), which is what `bool: Ord` means.
+#[cfg_attr(kani, kani::proof)]
+#[cfg_attr(verif_replay, test)]
+fn c15_f_bool() {
+    let a: bool = vk::any();
+    let b: bool = vk::any();
+    let ab = <bool as Value>::as_bytes(&a);
+    let bb = <bool as Value>::as_bytes(&b);
+    assert!(ab.len() == 1 && <bool as Value>::fixed_width() == Some(1));
+    assert!(<bool as Key>::compare(ab, bb) == u8::from(a).cmp(&u8::from(b)));
+    assert!(<bool as Value>::from_bytes(ab) == a);
+    if !a && b {
+        let s = <bool as Key>::separator(ab, bb);
+        assert!(&*s == ab);
+    }
+}
 
 #[cfg_attr(kani, kani::proof)]
 #[cfg_attr(verif_replay, test)]
